@@ -290,6 +290,13 @@ func (rc *RunCtx) execFamily(u *ExecUniverse, prefixes ...string) {
 					mine = true
 				}
 			}
+			// a call that panicked, returned ErrInvalid or an unclassified error did
+			// not return what this property (whichever it is) says it returns
+			for _, p := range []string{"C05.panic.", "C05.invalid.", "C05.unclassified."} {
+				if strings.HasPrefix(cl, p) {
+					mine = true
+				}
+			}
 			if !mine {
 				other[strings.SplitN(cl, ".", 2)[0]]++
 				continue
